@@ -19,6 +19,7 @@ func genDumpMain(args []string) {
 	show := fs.Int("show", 0, "print the first N pools")
 	showOK := fs.Int("show-ok", 0, "print N faulted docs that validate")
 	cleanRules := map[string]int{}
+	variantOK, variantBad := 0, 0
 	showBad := fs.Int("show-bad", 0, "print N unexpected results (valid schema that fails to load, unfaulted doc that is invalid)")
 	fs.Parse(args)
 	var schemaOK, schemaBad, faultyLoaded, faultyRejected, docsClean, docsCleanValid, docsFaulted, docsFaultedInvalid, parseErr int
@@ -28,7 +29,7 @@ func genDumpMain(args []string) {
 		r := gen.NewRng(gen.Mix(*seed, uint64(i)))
 		seedBefore := *r
 		_ = seedBefore
-		p := gen.GenPoolFor(r, 2, 6, 5)
+		p := gen.GenPoolFor(r, 2, 2, 6, 5)
 		if i < *show {
 			fmt.Printf("===== pool %d schema =====\n%s\n", i, p.Schema)
 			for j, d := range p.Docs {
@@ -45,6 +46,17 @@ func genDumpMain(args []string) {
 			continue
 		}
 		schemaOK++
+		for _, v := range p.Variants {
+			if _, err := gqlparser.LoadSchema(&ast.Source{Name: "v", Input: v}); err != nil {
+				variantBad++
+				if *showBad > 0 {
+					*showBad--
+					fmt.Printf("VARIANT rejected: %v\n", err)
+				}
+			} else {
+				variantOK++
+			}
+		}
 		for _, f := range p.FaultySchema {
 			_, err := gqlparser.LoadSchema(&ast.Source{Name: "f", Input: f})
 			if err == nil {
@@ -100,6 +112,7 @@ func genDumpMain(args []string) {
 	}
 	_ = docsFaulted
 	fmt.Printf("schemas: %d load, %d unexpectedly rejected; faulty variants: %d rejected, %d loaded anyway\n", schemaOK, schemaBad, faultyRejected, faultyLoaded)
+	fmt.Printf("valid variants: %d load, %d rejected\n", variantOK, variantBad)
 	fmt.Printf("unfaulted docs: %d, valid %d; faulted docs: %d, invalid %d; parse errors %d\n", docsClean, docsCleanValid, docsFaulted, docsFaultedInvalid, parseErr)
 	fmt.Printf("rules hit by UNFAULTED docs: %v\n", cleanRules)
 	var ks []string
